@@ -37,12 +37,13 @@ type c16Job struct {
 }
 
 type c16Env struct {
-	workers int
-	pool    *verif.Pool
-	t0      time.Time
-	jobs    []*c16Job
-	running atomic.Int32
-	mu      sync.Mutex
+	lingerAfterCancel time.Duration
+	workers           int
+	pool              *verif.Pool
+	t0                time.Time
+	jobs              []*c16Job
+	running           atomic.Int32
+	mu                sync.Mutex
 }
 
 func (e *c16Env) now() int64 { return int64(time.Since(e.t0)) + 1 }
@@ -67,6 +68,7 @@ func (e *c16Env) send(j *c16Job) {
 			select {
 			case <-j.gate:
 			case <-ctx.Done():
+				time.Sleep(e.lingerAfterCancel)
 			}
 		}
 		j.finished.Store(e.now())
@@ -87,6 +89,8 @@ func (e *c16Env) quiesce(c *rt.CaseResult, replay map[string]any) bool {
 	}
 	stuckSeen := 0
 	t0 := time.Now()
+	var lastBusy verif.PoolState
+	lastChange := time.Now()
 	for iter := 0; iter < 400; iter++ {
 		st := e.pool.VerifState()
 		if st.Deferred > 0 && !st.FlusherActive {
@@ -100,6 +104,31 @@ func (e *c16Env) quiesce(c *rt.CaseResult, replay map[string]any) bool {
 			continue
 		}
 		stuckSeen = 0
+		if st.Deferred > 0 && st.ChanLen == 0 && st == lastBusy && time.Since(lastChange) > time.Second {
+			// Nothing has moved for a second although the channel is empty. Decide logically: if no
+			// job is running, the channel is empty and the deferred list stays untouched, whoever
+			// holds the flusher role is not flushing (a live flusher sends into a channel with room).
+			// this pool runs only the harness's jobs: no job running and an empty channel mean every
+			// worker is free; sample that three times, 100 ms apart
+			idleRounds := 0
+			for round := 0; round < 3; round++ {
+				rt.Beat()
+				now := e.pool.VerifState()
+				if e.running.Load() == 0 && now.ChanLen == 0 && now.Deferred >= st.Deferred {
+					idleRounds++
+				}
+				time.Sleep(100 * time.Millisecond)
+			}
+			if idleRounds == 3 {
+				replay["pool_state"] = fmt.Sprintf("%+v", e.pool.VerifState())
+				c.Violate("deferred-jobs-not-flushed workers-idle channel-empty", fmt.Sprintf("%d job(s) stay in the deferred list although no job was running and the channel was empty in three consecutive looks: the flusher role is held by nobody who flushes", st.Deferred), replay)
+				return false
+			}
+			lastChange = time.Now()
+		}
+		if st != lastBusy {
+			lastBusy, lastChange = st, time.Now()
+		}
 		if st.Deferred > 0 || st.FlusherActive || st.ChanLen > 0 {
 			// jobs are still moving: do not push barrier jobs on top of them (the deferred list is
 			// last-in-first-out, barrier jobs would overtake and starve them); look again shortly
@@ -129,7 +158,8 @@ func (e *c16Env) quiesce(c *rt.CaseResult, replay map[string]any) bool {
 		go func() { started.Wait(); close(ok) }()
 		select {
 		case <-ok:
-		case <-time.After(20 * time.Second):
+		case <-time.After(10 * time.Second):
+			rt.Beat()
 			st = e.pool.VerifState()
 			close(release)
 			if st.Deferred > 0 && !st.FlusherActive {
@@ -315,7 +345,28 @@ func c16Stop(tier string, seed int64, idx int, scratch string) rt.CaseResult {
 	} else {
 		time.Sleep(time.Duration(rng.Intn(300)) * time.Microsecond)
 	}
-	e.pool.Stop()
+	e.lingerAfterCancel = time.Duration(rng.Intn(3)) * time.Millisecond
+	if rng.Intn(2) == 0 {
+		// two overlapping Stop calls: each of them may return only when nothing is running any more
+		var sw sync.WaitGroup
+		for i := 0; i < 2; i++ {
+			sw.Add(1)
+			go func(i int) {
+				defer sw.Done()
+				if i == 1 {
+					time.Sleep(time.Duration(rng.Intn(200)) * time.Microsecond)
+				}
+				e.pool.Stop()
+				if r := e.running.Load(); r != 0 {
+					c.Violate("stop-returned-with-running-jobs concurrent-stop", fmt.Sprintf("%d job(s) were still running when one of two overlapping Stop calls returned", r), replay)
+				}
+			}(i)
+		}
+		sw.Wait()
+		replay["double_stop"] = true
+	} else {
+		e.pool.Stop()
+	}
 	stopRet := e.now()
 	if r := e.running.Load(); r != 0 {
 		c.Violate("stop-returned-with-running-jobs", fmt.Sprintf("%d job(s) were still running when Stop returned", r), replay)
@@ -345,7 +396,7 @@ func c16Order(tier string, seed int64, idx int, scratch string) rt.CaseResult {
 	var c rt.CaseResult
 	rt.SetWatchdogLimit(30 * time.Second)
 	rng := seqrun.Rng(seed, "C16o", idx)
-	patterns := []string{"send-before-run", "stop-stop-concurrent", "run-stop-run", "stop-before-run", "send-during-stop", "run-run-concurrent", "random"}
+	patterns := []string{"send-before-run", "stop-stop-concurrent", "run-stop-run", "stop-before-run", "send-during-stop", "run-run-concurrent", "random", "stop-racing-runs", "restart-with-deferred"}
 	pat := patterns[idx%len(patterns)]
 	e := &c16Env{pool: verif.NewPool(verif.PoolOptions{NumWorkers: 1 + rng.Intn(2), SendDuration: time.Microsecond}), t0: time.Now()}
 	fmt.Fprintf(stderrW, "C16 pattern %s\n", pat)
@@ -389,6 +440,57 @@ func c16Order(tier string, seed int64, idx int, scratch string) rt.CaseResult {
 				send()
 			}
 		}, func() { time.Sleep(time.Duration(rng.Intn(100)) * time.Microsecond); e.pool.Stop() })
+	case "stop-racing-runs":
+		for round := 0; round < 150; round++ {
+			rt.Beat()
+			e.pool.Run(bg)
+			send()
+			fs := []func(){e.pool.Stop}
+			for i := 0; i < 4; i++ {
+				fs = append(fs, func() { e.pool.Run(bg) })
+			}
+			par(fs...)
+			send()
+			e.pool.Stop()
+		}
+	case "restart-with-deferred":
+		// first life: a flusher is blocked on the full channel when Stop is called; second life:
+		// deferred jobs must be flushed again
+		e.workers = 1
+		e.pool = verif.NewPool(verif.PoolOptions{NumWorkers: 1, SendDuration: time.Microsecond})
+		for life := 0; life < 2; life++ {
+			e.pool.Run(bg)
+			first := len(e.jobs)
+			var gated []*c16Job
+			for i := 0; i < 5; i++ { // 1 running, 2 in the channel, 2 deferred (flusher blocked on the channel)
+				j := e.newJob(true)
+				gated = append(gated, j)
+				e.send(j)
+				if i == 0 {
+					for j.started.Load() == 0 {
+						time.Sleep(50 * time.Microsecond)
+					}
+				}
+			}
+			if life == 0 {
+				time.Sleep(2 * time.Millisecond)
+				e.pool.Stop() // gated jobs end through the cancelled context; queued ones may be dropped
+				continue
+			}
+			for _, j := range gated {
+				close(j.gate)
+			}
+			rp := map[string]any{"pattern": pat, "seed": seed, "case": idx}
+			if e.quiesce(&c, rp) {
+				for _, j := range e.jobs[first:] {
+					if j.runs.Load() != 1 {
+						c.Violate("job-lost after-restart", fmt.Sprintf("job %d, accepted in the pool's second life, ran %d times", j.id, j.runs.Load()), rp)
+						break
+					}
+				}
+			}
+			e.pool.Stop()
+		}
 	case "run-run-concurrent":
 		par(func() { e.pool.Run(bg) }, func() { e.pool.Run(bg) })
 		send()
